@@ -46,9 +46,12 @@ def run_one(mut, tier, with_tests, procs):
                 if os.path.exists(os.path.join(REPO, f)):
                     shutil.copy(os.path.join(REPO, f), tmp)
             env = dict(os.environ, PYTHONPATH=tmp, PYTHONDONTWRITEBYTECODE='1')
-            p = subprocess.run(['/venv/bin/python', '-m', 'pytest', '-q', '-x', '-p', 'no:cacheprovider', 'tests'],
-                               cwd=tmp, env=env, capture_output=True, text=True)
-            res['tests'] = 'pass' if p.returncode == 0 else 'FAIL: ' + p.stdout.strip().splitlines()[-1]
+            try:
+                p = subprocess.run(['/bin/sh', '-c', 'ulimit -v 4000000; exec /venv/bin/python -m pytest -q -x -p no:cacheprovider tests'],
+                                   cwd=tmp, env=env, capture_output=True, text=True, timeout=300)
+                res['tests'] = 'pass' if p.returncode == 0 else 'FAIL: ' + (p.stdout.strip().splitlines() or ['?'])[-1]
+            except subprocess.TimeoutExpired:
+                res['tests'] = 'FAIL: test-suite hangs'
         env = dict(os.environ, VERIF_REPO=tmp, VERIF_EVIDENCE=os.path.join(tmp, 'evidence.json'),
                    VERIF_PROCS=str(procs))
         t0 = time.time()
